@@ -40,6 +40,16 @@ type c04Expect struct {
 	Ctls       []CtlSpec
 }
 
+// expectAfter is the expectation for the frame written after the first k phases.
+func expectAfter(p RespProg, k int) c04Expect {
+	q := p
+	q.Setters = append([]SetterSpec{}, p.Setters...)
+	for i := 0; i < k && i < len(p.Phases); i++ {
+		q.Setters = append(q.Setters, p.Phases[i]...)
+	}
+	return expectOf(q)
+}
+
 func expectOf(p RespProg) c04Expect {
 	e := c04Expect{Tag: -1, Code: -1}
 	switch p.Ctor {
@@ -222,8 +232,11 @@ func c04Exec(c c04Case, st *lab.Stats) *lab.Fail {
 	total := 0
 	for i, it := range c.Items {
 		byID[it.Req.MsgID] = i
-		total += len(it.Progs)
 		for _, p := range it.Progs {
+			total += 1 + len(p.Phases)
+			if len(p.Phases) > 0 {
+				st.Class(fmt.Sprintf("rewrites=%d", len(p.Phases)))
+			}
 			e := expectOf(p)
 			nt := it.Req.MsgID != int64(i+1) && ((e.DiagSet && e.MatchedSet && !bytes.Equal(e.Diag, e.Matched)) || len(e.SetAttrs)+len(e.ListAttrs) >= 2 || len(e.Ctls) >= 1)
 			cls := []string{"ctor=" + p.Ctor, "req=" + it.Req.Kind, fmt.Sprintf("nsetters=%d", len(p.Setters)), fmt.Sprintf("nctl=%d", len(e.Ctls))}
@@ -256,12 +269,20 @@ func c04Exec(c c04Case, st *lab.Stats) *lab.Fail {
 		var o outcome
 		o.site, o.pan, _ = guard(func() {
 			for _, p := range c.Items[idx].Progs {
-				resp, err := p.Build(r)
+				resp, apply, err := p.BuildWithApply(r)
 				if err != nil {
 					o.writeErrs = append(o.writeErrs, err)
 					continue
 				}
 				o.writeErrs = append(o.writeErrs, w.Write(resp))
+				// the same response object, modified and written again
+				for _, ph := range p.Phases {
+					if err := apply(ph); err != nil {
+						o.writeErrs = append(o.writeErrs, err)
+						continue
+					}
+					o.writeErrs = append(o.writeErrs, w.Write(resp))
+				}
 			}
 		})
 		mu.Lock()
@@ -314,16 +335,26 @@ func c04Exec(c c04Case, st *lab.Stats) *lab.Fail {
 	wg.Wait()
 	for i, it := range c.Items {
 		fr := frames[it.Req.MsgID]
-		if len(fr) != len(it.Progs) {
-			return lab.Failf("resp:msgid", "request %d (msgid=%d) got %d frames, want %d", i, it.Req.MsgID, len(fr), len(it.Progs))
+		wantFrames := 0
+		for _, p := range it.Progs {
+			wantFrames += 1 + len(p.Phases)
 		}
-		for j, p := range it.Progs {
-			if j < len(outs[i].writeErrs) && outs[i].writeErrs[j] != nil {
-				return lab.Failf("resp:write-error", "Write returned %v", outs[i].writeErrs[j])
+		if len(fr) != wantFrames {
+			return lab.Failf("resp:msgid", "request %d (msgid=%d) got %d frames, want %d", i, it.Req.MsgID, len(fr), wantFrames)
+		}
+		for _, we := range outs[i].writeErrs {
+			if we != nil {
+				return lab.Failf("resp:write-error", "Write returned %v", we)
 			}
-			if f := checkFrame(expectOf(p), fr[j], &skipped); f != nil {
-				f.Message = fmt.Sprintf("request %d (%s msgid=%d) program %d (%s): %s", i, it.Req.Kind, it.Req.MsgID, j, p.Ctor, f.Message)
-				return f
+		}
+		fi := 0
+		for j, p := range it.Progs {
+			for k := 0; k <= len(p.Phases); k++ {
+				if f := checkFrame(expectAfter(p, k), fr[fi], &skipped); f != nil {
+					f.Message = fmt.Sprintf("request %d (%s msgid=%d) program %d (%s), write #%d of the same response object: %s", i, it.Req.Kind, it.Req.MsgID, j, p.Ctor, k+1, f.Message)
+					return f
+				}
+				fi++
 			}
 		}
 	}
@@ -342,7 +373,7 @@ func keysOf(m map[int64]int) []int64 {
 func TestC04(t *testing.T) {
 	lab.Prop[c04Case]{
 		ID: "C04", Part: "programs",
-		Rule: "rapid: 1..6 pipelined requests of every answerable operation with distinct random message IDs (never the arrival number), each answered by 1..5 response programs = constructor x documented options (every subset/order, repetition allowed) x setter sequences (result codes 0..32767, application codes 0..30, strings empty/binary/>127/>65535 bytes, 0..4 attributes x 0..4 values, 0..4 controls of every kind); oracle = last-value-wins model evaluated on frames parsed by the independent strict codec, go-ldap's GetLDAPError/DecodeControl as second reader; non-trivial = message ID != Request.ID and (matched DN != diagnostic both set, or >= 2 attributes, or >= 1 control); distinct by hash of program+message ID",
+		Rule: "rapid: 1..6 pipelined requests of every answerable operation with distinct random message IDs (never the arrival number), each answered by 1..5 response programs = constructor x documented options (every subset/order, repetition allowed) x setter sequences, optionally followed by further setters on the SAME response object and another Write (result codes 0..32767, application codes 0..30, strings empty/binary/>127/>65535 bytes, 0..4 attributes x 0..4 values, 0..4 controls of every kind); oracle = last-value-wins model evaluated on frames parsed by the independent strict codec, go-ldap's GetLDAPError/DecodeControl as second reader; non-trivial = message ID != Request.ID and (matched DN != diagnostic both set, or >= 2 attributes, or >= 1 control); distinct by hash of program+message ID",
 		Gen: func(t *rapid.T) c04Case {
 			var c c04Case
 			n := rapid.IntRange(1, 6).Draw(t, "nitems")
@@ -356,7 +387,14 @@ func TestC04(t *testing.T) {
 				it := c04Item{Req: r}
 				np := rapid.IntRange(1, 5).Draw(t, "nprogs")
 				for j := 0; j < np; j++ {
-					it.Progs = append(it.Progs, genRespProg(false, true).Draw(t, "prog"))
+					pr := genRespProg(false, true).Draw(t, "prog")
+					if rapid.IntRange(0, 3).Draw(t, "rewrite") == 0 {
+						np := rapid.IntRange(1, 2).Draw(t, "nphases")
+						for k := 0; k < np; k++ {
+							pr.Phases = append(pr.Phases, rapid.SliceOfN(genSetter(pr.Ctor, false), 1, 3).Draw(t, "phase"))
+						}
+					}
+					it.Progs = append(it.Progs, pr)
 				}
 				c.Items = append(c.Items, it)
 			}
